@@ -23,3 +23,36 @@ def _e1(pid, wall_q=75, wall_t=900, min_q=20, min_t=100, assumptions=None):
 
 for _p in ('C01', 'C02', 'C03', 'C04', 'C05', 'C18', 'C20'):
     _e1(_p)
+
+PROPS['C08'] = {
+    'engine': 'rv.journalfuzz', 'level': 'fault_enumeration',
+    'rule': ('one case = a seeded sequence of 40 journal operations (add of 0 B .. several times the current file size, drop tail, drop '
+             'head, clear, commit-index update with/without flush, reopen) on the real FileJournal, compared after every operation with a '
+             'Python list, with positive/negative indexing and slices, and with an independent decoder of the bytes on disk. For the '
+             'enumerated operations (all in the thorough tier, a seeded 35% sample in the quick tier) every storage primitive is a kill '
+             'point: the files are copied before and after each primitive and with 3 torn prefixes of every record store, a FileJournal '
+             'is reopened on every copy and the post-crash oracle of the interrupted operation is applied (exhaustive per enumerated '
+             'operation). Thorough adds real SIGKILL of a child process at random instants. distinct non-trivial = distinct '
+             '(operation, kill point, emptiness, surviving length) and (operation, state class) combinations reached.'),
+    'wall_cap': {'quick': 80, 'thorough': 1200},
+    'min_nontrivial': {'quick': 20, 'thorough': 40},
+    'assumptions': ['process kill, not power loss: the page cache survives, so the files at the instant of the kill are what is reopened',
+                    'a 4-byte store of the header offset is atomic; record stores may tear at any prefix',
+                    'journal creation (first open of a missing file) is outside the listed operations'],
+}
+
+PROPS['C15'] = {
+    'engine': 'rv.batterymbt', 'level': 'exploration',
+    'rule': ('one case = one seeded operation sequence. 5/8 of the cases: 5-70 operations over all public methods of one battery '
+             '(_doApply=True, arguments from small domains, default arguments by omission) against the builtin container, result/exception '
+             'class and contents compared after every operation; 2 of those 5 additionally carry the battery through '
+             '_serialize/pickle/_deserialize mid-sequence; 1/8: ReplSet.pop() order on a replica restored from a snapshot vs the original; '
+             '1/8: 25-60 replicated battery operations through a 3-node E1 cluster with a cut-off follower, forced compaction and snapshot '
+             'catch-up, every apply result / callback result / replica digest compared with the model by the C01/C02 monitors. '
+             'distinct non-trivial = distinct (battery, method, arity, kwargs?) combinations exercised plus replicated cases in which a '
+             'snapshot was actually installed.'),
+    'wall_cap': {'quick': 80, 'thorough': 1200},
+    'min_nontrivial': {'quick': 40, 'thorough': 60},
+    'assumptions': ['reference semantics follow the battery docstrings where they deliberately differ from the builtin (ReplDict.pop default None, '
+                    'queue get(default))', 'bounded queues are exercised with maxsize >= 1'],
+}
